@@ -246,7 +246,9 @@ __CPROVER_frees(out->embeddedsignaturelen > 0: out->embeddedsignature; out->atte
 __CPROVER_ensures(in->size <= __CPROVER_old(in->size))
 __CPROVER_ensures(__CPROVER_return_value != 0 ==> in->size + 2 <= __CPROVER_old(in->size))
 __CPROVER_ensures(__CPROVER_return_value == 0 ==> in->size == __CPROVER_old(in->size))
-/* what SubpacketParse relies on: the length fields describe what was stored */
+/* what SubpacketParse relies on: the length fields describe what was stored; an embedded-signature subpacket leaves a
+ * freshly allocated buffer of the stated length */
+__CPROVER_ensures(__CPROVER_return_value == 32 ==> (out->embeddedsignaturelen <= MAXALLOC && (out->embeddedsignaturelen == 0 || __CPROVER_is_fresh(out->embeddedsignature, out->embeddedsignaturelen))))
 __CPROVER_ensures(__CPROVER_return_value != 0 ==> ((out->notation_name_length <= sizeof(out->notation_name) || out->notation_name_length == __CPROVER_old(out->notation_name_length)) &&
    (out->notation_value_length <= sizeof(out->notation_value) || out->notation_value_length == __CPROVER_old(out->notation_value_length))))
 //@ loop 1
@@ -477,5 +479,38 @@ __CPROVER_ensures(__CPROVER_old(in->size) >= 1 ==> in->size < __CPROVER_old(in->
 __CPROVER_assigns(len, partlen, firstlen, in->size, pkt.size, current_packet->size, out->indetlen, vec_u8__cell)
 __CPROVER_loop_invariant(in->size <= __CPROVER_loop_entry(in->size) && pkt.size <= __CPROVER_loop_entry(in->size) - in->size && current_packet->size >= __CPROVER_loop_entry(current_packet->size) && current_packet->size - __CPROVER_loop_entry(current_packet->size) <= __CPROVER_loop_entry(in->size) - in->size)
 __CPROVER_decreases(in->size + (partlen ? 1 : 0))
+//@ end
+
+//@ function SubpacketParse
+//@ noloopcontracts
+//@ contract
+/* BOUNDED (one subpacket per area: outer loop unwound before instrumentation; inner copy loops closed by
+ * invariants).  C12: a subpacket area is parsed or refused; every copy out of the context stays inside the counted
+ * arrays / the embedded-signature buffer; a non-zero verdict is given only after the whole area was consumed. */
+__CPROVER_requires(__CPROVER_is_fresh(in, sizeof(*in)) && in->cap == TCAP && in->size <= 2 && CTX_OK(out) && CTX_BUFS_FRESH(out) && CNT_OK(notations) && CNT_OK(embeddedsigs) && CNT_OK(recipientfprs))
+__CPROVER_assigns(*out, in->size, tmcg_openpgp_mem_alloc, vec_u8__cell, notations->size, embeddedsigs->size, recipientfprs->size)
+__CPROVER_ensures(in->size <= __CPROVER_old(in->size))
+__CPROVER_ensures(__CPROVER_return_value != 0 ==> in->size == 0)
+__CPROVER_ensures(embeddedsigs->size >= __CPROVER_old(embeddedsigs->size) && embeddedsigs->size - __CPROVER_old(embeddedsigs->size) <= 1)
+//@ loop 2
+__CPROVER_assigns(i, notation.first.size)
+__CPROVER_loop_invariant(i <= out->notation_name_length && notation.first.size == i)
+__CPROVER_decreases(out->notation_name_length - i)
+//@ loop 3
+__CPROVER_assigns(i, notation.second.size)
+__CPROVER_loop_invariant(i <= out->notation_value_length && notation.second.size == i)
+__CPROVER_decreases(out->notation_value_length - i)
+//@ loop 4
+__CPROVER_assigns(i, sig.size)
+__CPROVER_loop_invariant(i <= out->embeddedsignaturelen && sig.size == i)
+__CPROVER_decreases(out->embeddedsignaturelen - i)
+//@ loop 5
+__CPROVER_assigns(i, fpr.size)
+__CPROVER_loop_invariant(i <= 20 && fpr.size == i)
+__CPROVER_decreases(20 - i)
+//@ loop 6
+__CPROVER_assigns(i, fpr.size)
+__CPROVER_loop_invariant(i <= 32 && fpr.size == i)
+__CPROVER_decreases(32 - i)
 //@ end
 
